@@ -3,10 +3,11 @@
 // Uses the end-to-end engine (real agent in a child, scripted upstreams, stamped records) with scenarios chosen for
 // order: interleaved key sets with batch sizes around the input batch limit, forced spilling, resets, never-ack +
 // restart, traffic right after a restart. Oracle over the upstream's logical clock:
-//  (1) per output and (connection, key set) stream, first arrivals are in stamp order;
-//  (2) on one upstream connection no chunk is received while an older chunk of the same pipeline that was seen before and
-//      is not acknowledged has not been received on that connection;
-//  (3) chunk ids increase within one upstream connection.
+//
+//	(1) per output and (connection, key set) stream, first arrivals are in stamp order;
+//	(2) on one upstream connection no chunk is received while an older chunk of the same pipeline that was seen before and
+//	    is not acknowledged has not been received on that connection;
+//	(3) chunk ids increase within one upstream connection.
 package main
 
 import (
@@ -21,12 +22,14 @@ import (
 
 	"github.com/relex/gotils/logger"
 
+	"github.com/relex/slog-agent/util/vhook"
+
 	"verifharness/internal/e2e"
 	"verifharness/internal/vkit"
 )
 
 var families = []string{"steady", "reset-after-k", "neverack-restart", "refuse-then-recover", "restarts-in-a-row", "late-ack",
-	"session-renewal", "blackhole-restart", "stop-with-pending-acks", "wrong-id", "two-outputs-one-faulty", "stop-mid-chunk", "interrupted-recovery", "interrupted-recovery"}
+	"session-renewal", "blackhole-restart", "stop-with-pending-acks", "wrong-id", "two-outputs-one-faulty", "stop-mid-chunk", "stop-while-forwarding", "interrupted-recovery", "interrupted-recovery"}
 
 func buildScenarios(c *vkit.Ctx) []e2e.Scenario {
 	var out []e2e.Scenario
@@ -35,7 +38,7 @@ func buildScenarios(c *vkit.Ctx) []e2e.Scenario {
 		r := c.Rand("scenario", i)
 		sc := e2e.GenScenario(r, families[i%len(families)], i, e2e.Opt{Kinds: []string{"plain", "plain", "plain", "drop", "esc"}, MaxRecs: 60})
 		// order-relevant knobs: small memory window (spill), small chunks, small batches
-		if r.Intn(2) == 0 {
+		if r.Intn(2) == 0 && sc.Family != "stop-while-forwarding" {
 			sc.MemWindow = 4
 			sc.ChunkBytes = 300
 		}
@@ -155,6 +158,30 @@ func Judge(obs *e2e.Obs) (fs []finding, info map[string]int) {
 			info["retransmitted_chunks"]++
 		}
 	}
+	// (2b) an older chunk that had never been transmitted anywhere when a newer one of the same pipeline was received: chunk ids
+	// are assigned by the pipeline's single worker in creation order, so a chunk with a smaller id existed, undelivered, at
+	// that moment (it shows up later: retransmitted, or recovered from disk after a restart)
+	firstRecv := map[pkey]map[string]int64{}
+	for _, ch := range obs.Chunks {
+		pk := pkey{ch.Output, ch.Tag}
+		if firstRecv[pk] == nil {
+			firstRecv[pk] = map[string]int64{}
+		}
+		if c0, ok := firstRecv[pk][ch.ChunkID]; !ok || ch.Clock < c0 {
+			firstRecv[pk][ch.ChunkID] = ch.Clock
+		}
+	}
+	flagged := map[string]bool{}
+	for _, ch := range obs.Chunks {
+		pk := pkey{ch.Output, ch.Tag}
+		for id, c0 := range firstRecv[pk] {
+			if id < ch.ChunkID && c0 > ch.Clock && !flagged[ch.Output+"/"+id] {
+				flagged[ch.Output+"/"+id] = true
+				add("skipped-older-chunk", fmt.Sprintf("%s %s: chunk %s was received (generation %d, upstream connection %d) while the older chunk %s of the same pipeline had not been transmitted at all; it arrived later (clock %d > %d)",
+					ch.Output, ch.Tag, ch.ChunkID, ch.Gen, ch.UpConn, id, c0, ch.Clock))
+			}
+		}
+	}
 	info["chunks"] = len(obs.Chunks)
 	for gi := 1; gi < len(obs.Gens); gi++ {
 		if len(obs.Gens[gi-1].DiskFiles) > 0 {
@@ -183,7 +210,13 @@ func childMain(c *vkit.Ctx) {
 		runtime.GOMAXPROCS(sc.Procs)
 	}
 	c.LogCase(sc.ID + ":" + sc.Family)
-	obs, err, attempts, expired := e2e.RunStable(sc, c.WorkDir(), e2e.Hooks{}, func(o *e2e.Obs) bool { fs, _ := Judge(o); return len(fs) > 0 })
+	var overlapped func() bool
+	var sentAfterStop func() int64
+	gateOff := func() {}
+	if sc.Family == "stop-while-forwarding" {
+		vhook.Hook, overlapped, sentAfterStop, gateOff = e2e.StopOverlapGate(1500*time.Microsecond, 3*time.Millisecond, 300*time.Millisecond)
+	}
+	obs, err, attempts, expired := e2e.RunStable(sc, c.WorkDir(), e2e.Hooks{AfterStop: func(gen int) { gateOff() }}, func(o *e2e.Obs) bool { fs, _ := Judge(o); return len(fs) > 0 })
 	c.Eval(1)
 	if attempts > 1 {
 		c.Event("attempts_set_aside_after_safety_timeout_expiry", attempts-1)
@@ -194,10 +227,26 @@ func childMain(c *vkit.Ctx) {
 		return
 	}
 	fs, info := Judge(obs)
+	if os.Getenv("VERIF_DEBUG") != "" {
+		for _, ch := range obs.Chunks {
+			fmt.Fprintf(os.Stderr, "DEBUG chunk gen%d conn%d %s acked=%v n=%d clock=%d\n", ch.Gen, ch.UpConn, ch.ChunkID, ch.Acked, ch.N, ch.Clock)
+		}
+		for gi, g := range obs.Gens {
+			fmt.Fprintf(os.Stderr, "DEBUG gen%d files=%v log=%v\n", gi, g.DiskFiles, g.AgentLog)
+		}
+	}
 	for k, v := range info {
 		c.Event(k, v)
 	}
 	c.Event("family:"+sc.Family, 1)
+	if overlapped != nil {
+		c.Event("stop_while_forwarding_runs", 1)
+		c.Event("chunks_forwarded_after_the_shutdown_save_began", int(sentAfterStop()))
+		if overlapped() {
+			c.Event("shutdown_save_overlapped_forwarding", 1)
+		}
+		c.Nontrivial("stop-while-forwarding:" + sc.ID)
+	}
 	if info["retransmitted_chunks"] > 0 || info["generations_with_recovery"] > 0 || info["persistent_inputs"] > 0 {
 		b, _ := json.Marshal(sc)
 		c.Nontrivial(sc.Family + ":" + vkit.Hash(string(b)))
